@@ -68,6 +68,8 @@ def gen_consts():
     sh([sys.executable, os.path.join(VERIF, "tools", "gen_pool.py"), os.path.join(COQ, "gen", "PoolProg.v")])
     # T4 likewise: an untranslatable channel.rs breaks the obligations of C03 (and of C04, which imports them)
     sh([sys.executable, os.path.join(VERIF, "tools", "gen_chan.py"), os.path.join(COQ, "gen", "ChanProg.v")])
+    # T5: the body of the single-threaded executor's run (obligations of C06 / C11)
+    sh([sys.executable, os.path.join(VERIF, "tools", "gen_strun.py"), os.path.join(COQ, "gen", "StRunProg.v")])
     return out
 
 
